@@ -314,10 +314,15 @@ fn gen_case(rng: &mut Rng, index: u64) -> Case {
         schema_ext,
         query_text,
         query_name: QUERY_NAMES[(index % 12) as usize].to_string(),
-        query_form: rng.pick(&["abs", "rel", "dot", "dslash"]).to_string(),
+        query_form: rng.pick(&["abs", "rel", "dot", "dslash", "symlink"]).to_string(),
         flags,
         placement: gen_placement(rng),
-        preseed: if rng.chance(30) { Some("// an older generated file\npub struct Old;\n".into()) } else { None },
+        // an older output at the destination: short, or much LONGER than anything the new run writes
+        preseed: match rng.below(10) {
+            0..=1 => Some("// an older generated file\npub struct Old;\n".into()),
+            2..=3 => Some(format!("// an older, much longer generated file\n{}", "pub struct OlderAndLonger;\n".repeat(4000))),
+            _ => None,
+        },
         edit: None,
     }
 }
@@ -439,8 +444,21 @@ impl Ctx {
         if edit != Some("missing-query-file") {
             std::fs::write(&query_file, &case.query_text).unwrap();
         }
+        // (a query file that is its own destination, e.g. `x.rs`, is not linked: writing through the link
+        // would overwrite the link's target, which says nothing about the property)
+        let own_destination = qdir.join(format!("{}.rs", oracle_stem(&case.query_name))) == query_file;
+        if case.query_form == "symlink" && edit != Some("missing-query-file") && !own_destination {
+            // the query path names a symbolic link whose target has another name in another directory:
+            // file name and default location come from the path as WRITTEN
+            let store = dir.join("store");
+            std::fs::create_dir_all(&store).unwrap();
+            let target = store.join("actual_target_name.graphql");
+            std::fs::rename(&query_file, &target).unwrap();
+            std::os::unix::fs::symlink(&target, &query_file).unwrap();
+        }
         let query_arg = match case.query_form.as_str() {
             "abs" => query_file.to_string_lossy().into_owned(),
+            "symlink" => format!("q/{}", case.query_name),
             "rel" => format!("q/{}", case.query_name),
             "dot" => format!("./q/{}", case.query_name),
             _ => format!("q//{}", case.query_name),
